@@ -57,14 +57,25 @@ def run_case(data):
         s.call('send_headers', 1, REQ)
     else:
         s.feed(wire.headers(1, s.hblock(REQ)))
+    probe_sids = [1]
+    if client and ch.bool():
+        # a promised stream (reserved (remote)) is governed by the local INITIAL_WINDOW_SIZE like any other
+        o = s.feed(wire.push_promise(1, 2, s.hblock(REQ)))
+        if not o.ok:
+            r.violate('C11:harness:push-rejected', o.brief())
+            return r
+        probe_sids.append(2)
+        r.labels.add('promised-stream-probed')
     win_truth = 65535             # advertised stream window per the model in force
     r.step('role', 'client' if client else 'server')
 
     def probes(where):
         truth = dev_cur if diverged else rfc_cur
-        q = s.call('remote_flow_control_window', 1)
-        if q.ok and q.value != min(65535, win_truth):
-            r.violate('C11:governed-window-wrong:%s' % where, 'library %r model %r' % (q.value, win_truth))
+        for psid in probe_sids:
+            q = s.call('remote_flow_control_window', psid)
+            if q.ok and q.value != min(65535, win_truth):
+                r.violate('C11:governed-window-wrong:%s' % where, 'stream %d library %r model %r' %
+                          (psid, q.value, win_truth))
         if s.c.max_inbound_frame_size != truth[5]:
             r.violate('C11:governed-frame-size-wrong:%s' % where, 'library %r model %r' %
                       (s.c.max_inbound_frame_size, truth[5]))
